@@ -1809,8 +1809,7 @@ class System(object, metaclass=SystemMetaclass):
         dict
             Metadata about the sparsity computation.
         """
-        if self._coloring_info.coloring is not None or self._coloring_info.dynamic:
-            # (a declared dynamic coloring has no Coloring object yet the first time through)
+        if self._coloring_info.coloring is not None:
             method = self._coloring_info['method']
             num_iters = self._coloring_info['num_full_jacs']
             perturb_size = self._coloring_info['perturb_size']
